@@ -138,9 +138,11 @@ pub(crate) fn run(seed: u64, n: u64, out: &mut Out) {
         };
         let steps = rng.range(8, 26);
         let mut closing = 0u64;
+        let mut poll: Vec<(bool, packed::Byte32)> = Vec::new();
+        let mut polls_done = 0u64;
         let mut step = 0u64;
         let mut stopped = false;
-        while !stopped && (step < steps || closing < 12) {
+        while !stopped && (step < steps || closing < 44) {
             let in_closing = step >= steps;
             if in_closing { closing += 1; }
             step += 1;
@@ -149,9 +151,17 @@ pub(crate) fn run(seed: u64, n: u64, out: &mut Out) {
             // outstanding requests per peer
             let pending_b: Vec<(PeerIndex, packed::GetBlocksProof)> = connected.iter().filter_map(|p| net.peers.get_peer(p).and_then(|x| x.get_blocks_proof_request().map(|r| { let hs: Vec<packed::Byte32> = r.block_hashes().into_iter().map(|h| h.pack()).collect(); (*p, packed::GetBlocksProof::new_builder().last_hash(r.last_hash()).block_hashes(hs.pack()).build()) }))).collect();
             let pending_t: Vec<(PeerIndex, packed::GetTransactionsProof)> = connected.iter().filter_map(|p| net.peers.get_peer(p).and_then(|x| x.get_txs_proof_request().map(|r| { let hs: Vec<packed::Byte32> = r.tx_hashes().into_iter().map(|h| h.pack()).collect(); (*p, packed::GetTransactionsProof::new_builder().last_hash(r.last_hash()).tx_hashes(hs.pack()).build()) }))).collect();
+            if in_closing && ((closing >= 1 && polls_done == 0) || (closing >= 9 && polls_done == 1)) {
+                polls_done += 1;
+                // the user polls every hash they asked for (a hash a lying peer reported missing is re-added by the call)
+                for h in &asked_h { poll.push((true, h.clone())); }
+                for t in &asked_t { poll.push((false, t.clone())); }
+            }
+            let mut forced: Option<packed::Byte32> = None;
             let choice = if in_closing {
-                // closing rounds: a proven honest peer is there, ticks and honest answers alternate
-                if connected.is_empty() { 6 } else if !pending_b.is_empty() { 20 } else if !pending_t.is_empty() { 21 } else { 2 }
+                // closing rounds: a proven honest peer is there; the user polls, ticks and honest answers alternate
+                if connected.is_empty() { 6 } else if !pending_b.is_empty() { 20 } else if !pending_t.is_empty() { 21 }
+                else if let Some((is_header, h)) = poll.pop() { forced = Some(h); if is_header { 0 } else { 30 } } else { 2 }
             } else {
                 let have_pending = !pending_b.is_empty() || !pending_t.is_empty();
                 let have_work = !net.peers.get_headers_to_fetch().is_empty() || !net.peers.get_txs_to_fetch().is_empty();
@@ -167,7 +177,7 @@ pub(crate) fn run(seed: u64, n: u64, out: &mut Out) {
             };
             let (term, v, name): (String, Val, &'static str) = match choice {
                 0 | 1 => {
-                    let h = headers_t[rng.below(headers_t.len() as u64) as usize].clone();
+                    let h = forced.clone().unwrap_or_else(|| headers_t[rng.below(headers_t.len() as u64) as usize].clone());
                     if !asked_h.contains(&h) { asked_h.push(h.clone()); }
                     let r = chain_rpc.fetch_header(h.unpack());
                     let v = match &r { Ok(s) => status_val(s), Err(_) => Val::l(vec![Val::n(9)]) };
@@ -176,7 +186,7 @@ pub(crate) fn run(seed: u64, n: u64, out: &mut Out) {
                     (format!("FE_fetch_header {} {}", hid.id(h.as_slice()), now), v, "fetch_header")
                 }
                 30 => {
-                    let t = txs_t[rng.below(txs_t.len() as u64) as usize].clone();
+                    let t = forced.clone().unwrap_or_else(|| txs_t[rng.below(txs_t.len() as u64) as usize].clone());
                     if !asked_t.contains(&t) { asked_t.push(t.clone()); }
                     let r = tx_rpc.fetch_transaction(t.unpack());
                     let v = match &r { Ok(s) => status_val(s), Err(_) => Val::l(vec![Val::n(9)]) };
